@@ -155,6 +155,24 @@ func lemmaL3(e, t, t1 uint64, i int, s uint64) bool {
 //@ func lemmaL3 : C13
 //@   ensures [C13:L3-overdue-timer-is-visited] result
 
+// wheelShape(w, n): the first n levels of w have the lengths of the bucket table
+func wheelShape[K comparable, V any](w [][]node.Node[K, V], n int) bool {
+	for k := 0; k < 5; k++ {
+		if k < n && uint64(len(w[k])) != buckets[k] {
+			return false
+		}
+	}
+	return true
+}
+
+//@ func NewVariable : C13 C05
+//@   fresh
+//@   requires nodeManager != nil && ghost_hasExp() && ghost_hasExpLinks()
+//@   modifies Variable::*, node::prevExp, node::nextExp, []node.Node::*
+//@   loop 1: unroll 5
+//@   loop 2: invariant [levels-so-far] len(wheel) == 5 && i >= 0 && i < 5 && wheelShape(wheel, i+1) && j >= 0
+//@   ensures [C13:wheel-starts-well-formed] result != nil && wfWheel(result) && result.time == 0
+
 //@ func (*Variable).findBucket : C13
 //@   requires wfWheel(v)
 //@   loop 1: unroll 4
